@@ -3,8 +3,8 @@
 # every non-zero exit (a false alarm or a harness error); used to flush out rare false alarms
 cd "$(dirname "$0")/.." || exit 2
 TIER=$1; A=$2; B=$3; shift 3
-PROPS=${@:-C01 C02 C03 C04 C05 C06 C07 C08 C09 C10 C11 C12 C13 C15 C17 C18 C19 C20}
-( cd lean && lake build VK driver > /dev/null 2>&1 )
+PROPS=${@:-C01 C02 C03 C04 C05 C06 C07 C08 C09 C10 C11 C12 C13 C14 C15 C16 C17 C18 C19 C20}
+( cd lean && lake build VK driver $(ls VK/Props/*.lean | sed "s|/|.|g; s|\.lean$||") > /dev/null 2>&1 )
 BAD=0
 for s in $(seq $A $B); do
   for p in $PROPS; do
